@@ -3,6 +3,7 @@
 UNITS = {
     "u1": {"kc": ["u1.kc"], "desc": "internal.rs + lib.rs + future.rs against the opaque-signal prelude"},
     "u2": {"kc": ["u2.kc"], "desc": "mutex.rs + backoff.rs + pointer-free part of signal.rs against atomic stand-ins"},
+    "glue": {"static": "glue_u1_u2.rs", "desc": "lemmas: what U2 proves about signal.rs implies what U1 assumes about it (given R2a)"},
 }
 
 # exits that are legitimately unreachable under the stated pre-conditions (vacuity guard exceptions)
@@ -57,7 +58,7 @@ PROPS = {
     "C01": mk(["u1"], T_SIGNAL, [R1, R2, R3, A1, A5], "conservation + ownership contracts on every critical section; effect log of hand-offs"),
     "C02": mk(["u1"], T_SIGNAL, [R1, R2, R3, A1, A5], "every send-type section appends at the tail of the logical order, every receive-type section takes its head"),
     "C03": mk(["u1"], T_SIGNAL, [R1, R2, R3, A1, A5], "every entry point ensures one atomic reference step per critical section; lock invariant at every guard death"),
-    "C04": mk(["u1", "u2"], T_SIGNAL + T_U2 + ["Kani 0.68 / CBMC 6.11 as shipped; one ignored CBMC check (zero-byte memset of core::mem::zeroed::<ZST>) listed under kani_tool_artefacts_ignored"],
+    "C04": mk(["u1", "u2", "glue"], T_SIGNAL + T_U2 + ["Kani 0.68 / CBMC 6.11 as shipped; one ignored CBMC check (zero-byte memset of core::mem::zeroed::<ZST>) listed under kani_tool_artefacts_ignored"],
               [R1, R2, R3, A1, A5, "universal quantifier over the message type T is covered by size/alignment classes (ZST, over-aligned ZST, 1,2,3,4,8 bytes, padded, 16, 24 bytes, padded large), each over its full value domain",
                "memory ordering (release store after the payload write / acquire before the read) is NOT decided: Verus assumes SC, Kani has no threads"],
               "Kani: KanalPtr and Signal transport every value bit-for-bit per size class (complete per instance); Verus: a receiver reads a slot only with evidence of delivery and with the size dispatch consistent"),
@@ -67,10 +68,10 @@ PROPS = {
     "C10": mk(["u1"], T_SIGNAL, [R1, R2, R3, A1, A5], "close contract; closed is absorbing on every entry point"),
     "C11": mk(["u1"], T_SIGNAL, [R1, R2, R3, A1, A5], "Drop contracts; drain before SendClosed"),
     "C12": mk(["u1"], [], [R1, A1, A3, A5], "+-1 contracts on every clone/drop/convert; conversions are transmutes (shape check)"),
-    "C13": mk(["u1", "u2"], T_SIGNAL + T_TIME + T_U2, [R1, R2, R3, A1, A4, A5], "timed operations: two critical sections, timeout only after a successful cancel under the lock, not before the deadline (clock token)"),
+    "C13": mk(["u1", "u2", "glue"], T_SIGNAL + T_TIME + T_U2, [R1, R2, R3, A1, A4, A5], "timed operations: two critical sections, timeout only after a successful cancel under the lock, not before the deadline (clock token)"),
     "C14": mk(["u1", "u2"], T_SIGNAL + T_U2, [R1, R2, A1, A5], "blocking-effect tokens in requires; total correctness of the non-blocking entry points"),
-    "C15": mk(["u1", "u2"], T_SIGNAL + T_U2, [R1, R2, R3, A1, A5], "Drop contracts of both futures: cancel under the lock, else wait for the peer, value disposed exactly once"),
-    "C16": mk(["u1", "u2"], T_SIGNAL + T_U2, [R1, R2, R3, A1, A5], "poll contracts: Pending implies current waker registered, waker replaced only under the lock, re-arm only with a fresh signal, value only on evidence of delivery, sticky stream end"),
+    "C15": mk(["u1", "u2", "glue"], T_SIGNAL + T_U2, [R1, R2, R3, A1, A5], "Drop contracts of both futures: cancel under the lock, else wait for the peer, value disposed exactly once"),
+    "C16": mk(["u1", "u2", "glue"], T_SIGNAL + T_U2, [R1, R2, R3, A1, A5], "poll contracts: Pending implies current waker registered, waker replaced only under the lock, re-arm only with a fresh signal, value only on evidence of delivery, sticky stream end"),
     "C17": mk(["u2"], T_U2, [A1, A5, "mutual exclusion under the C11 memory model is NOT proved: the contracts are sequential; L-MUTEX derives exclusion over the contracts assuming atomic CAS and sequential consistency", "progress (a blocking acquisition succeeds once the holder leaves) is excluded (liveness)"],
               "contracts on try_lock / lock / lock_no_inline / unlock / spin_cond on the real text + interleaving lemma over those contracts (reduced claim)"),
     "C18": mk(["u1"], T_SIGNAL + T_TIME, [R1, R2, R3, A1, A2, A3, A4, A5], "each entry point equals a deterministic reference function; panic- and overflow-freedom"),
